@@ -161,8 +161,8 @@ func (h *H) Close() {
 func Main(prop string) {
 	fix.Quiet()
 	r := vf.Start(prop, "exploration")
-	nHist := r.Pick(16, 128)
-	nSteps := r.Pick(70, 300)
+	nHist := r.Pick(48, 256)
+	nSteps := r.Pick(80, 300)
 	if v := os.Getenv("VERIF_HISTORIES"); v != "" {
 		fmt.Sscan(v, &nHist)
 	}
@@ -282,7 +282,11 @@ func (h *H) step() {
 	x := h.Rng.Intn(100)
 	if h.Prop == "C05" && h.Rng.Intn(8) == 0 {
 		// the property under decision is about conflict handling: more conflict structures
-		h.stepInjectConflictFan()
+		if h.Rng.Intn(2) == 0 {
+			h.stepInjectConflictFan()
+		} else {
+			h.stepInjectTie()
+		}
 		h.stepPublish()
 		return
 	}
